@@ -187,19 +187,115 @@ def r54(ctx):
     c08.r87(Proxy(ctx))
 
 
+def _lin_len(e, arr):
+    """Linear form over {'n' (= len(arr)), other names, 1}."""
+    if isinstance(e, ast.Constant) and isinstance(e.value, int) and not isinstance(e.value, bool):
+        return {1: e.value}
+    if isinstance(e, ast.Call) and isinstance(e.func, ast.Name) and e.func.id == "len" and e.args and ast.unparse(e.args[0]) == arr:
+        return {"n": 1}
+    if isinstance(e, ast.Name):
+        return {e.id: 1}
+    if isinstance(e, ast.BinOp) and isinstance(e.op, (ast.Add, ast.Sub)):
+        a, b = _lin_len(e.left, arr), _lin_len(e.right, arr)
+        if a is None or b is None:
+            return None
+        out = dict(a)
+        for k, v in b.items():
+            out[k] = out.get(k, 0) + (v if isinstance(e.op, ast.Add) else -v)
+        return {k: v for k, v in out.items() if v != 0}
+    return None
+
+
+def r55(ctx):
+    """A bound guard protects the index it guards: in the permanent / probability code, an
+    `if len(A) <op> k` whose branch indexes A[k + i, ...] must imply len(A) > k + i there
+    (otherwise the idle block that consists of [0-] alone raises IndexError and no job can be drawn)."""
+    rid = "R-5.5"
+    cls = ctx.tree.cls(REPEX, "REPEX_state")
+    n = 0
+    for f in [s for s in cls.body if isinstance(s, FUNC) and s.name in ("inf_retis", "find_blocks", "quick_prob", "permanent_prob", "random_prob", "prob")]:
+        for node in [x for x in walk_local(f) if isinstance(x, ast.If)]:
+            t = node.test
+            if not (isinstance(t, ast.Compare) and len(t.ops) == 1):
+                continue
+            sides = [t.left, t.comparators[0]]
+            lens = [s for s in sides if isinstance(s, ast.Call) and isinstance(s.func, ast.Name) and s.func.id == "len" and s.args]
+            if len(lens) != 1:
+                continue
+            arr = ast.unparse(lens[0].args[0])
+            a, b = _lin_len(t.left, arr), _lin_len(t.comparators[0], arr)
+            if a is None or b is None:
+                continue
+            # normalise the test to  lin >= 0
+            def hs(op, a=a, b=b):
+                def sub(x, y, k=0):
+                    out = dict(x)
+                    for kk, v in y.items():
+                        out[kk] = out.get(kk, 0) - v
+                    out[1] = out.get(1, 0) + k
+                    return {kk: v for kk, v in out.items() if v != 0 or kk == 1}
+                if isinstance(op, ast.GtE): return sub(a, b)
+                if isinstance(op, ast.Gt): return sub(a, b, -1)
+                if isinstance(op, ast.LtE): return sub(b, a)
+                if isinstance(op, ast.Lt): return sub(b, a, -1)
+                return None
+            NEG = {ast.Lt: ast.GtE, ast.LtE: ast.Gt, ast.Gt: ast.LtE, ast.GtE: ast.Lt}
+            for branch, op in ((node.body, t.ops[0]), (node.orelse, NEG.get(type(t.ops[0]), type(None))())):
+                h = hs(op) if op is not None else None
+                if h is None or h.get("n", 0) != 1:
+                    continue  # this branch does not bound len(A) from below
+                # h: n - (rest) >= 0
+                for st in branch:
+                    for sub_ in [x for x in ast.walk(st) if isinstance(x, ast.Subscript)]:
+                        base = sub_.value
+                        while isinstance(base, ast.Subscript):
+                            base = base.value
+                        # index on the array whose length is tested, or on its transposed/derived name with the same length symbol
+                        if ast.unparse(sub_.value) != arr:
+                            continue
+                        idx = sub_.slice.elts[0] if isinstance(sub_.slice, ast.Tuple) else sub_.slice
+                        if isinstance(idx, ast.Slice):
+                            continue
+                        li = _lin_len(idx, arr)
+                        if li is None:
+                            continue
+                        # need n - idx - 1 >= 0 to follow from h: (n - idx - 1) - h must be a non-negative constant
+                        need = {"n": 1, 1: -1}
+                        for kk, v in li.items():
+                            need[kk] = need.get(kk, 0) - v
+                        diff = dict(need)
+                        for kk, v in h.items():
+                            diff[kk] = diff.get(kk, 0) - v
+                        diff = {kk: v for kk, v in diff.items() if v != 0}
+                        if set(diff) - {1}:
+                            continue  # other symbols: not a guard for this index
+                        n += 1
+                        if diff.get(1, 0) >= 0:
+                            ctx.ok(rid, sub_, f"{f.name}: `{short(sub_, 40)}` is evaluated only where `{short(t, 40)}` {'holds' if branch is node.body else 'fails'}, which implies the index is in range")
+                        else:
+                            ctx.bad(rid, node, f"{f.name}: the guard `{short(t, 40)}` lets `{short(sub_, 40)}` be evaluated when len({arr}) equals the index: with every positive ensemble busy and only [0-] idle the idle block is 1x1, the index is out of range (IndexError) and no job can be drawn although a perfect matching exists",
+                                    construct=f"bound guard {short(t, 40)} vs index {short(idx, 20)}")
+    if n < 1:
+        raise AnalysisError("R-5.5: no bound guard protecting an index found in the permanent code (expected the `len(...) <= offset` guard of inf_retis)")
+
+
 def run(ctx):
     ctx.rule("R-5.2", "the restart file written after a step is written after the re-sorting (commit is final)", floor=1)
     ctx.rule("R-5.4", "in-flight jobs are persisted in the ensemble-index unit that the restart reads back (shared with C08 R-8.7)", floor=4)
     ctx.rule("R-5.3", "the re-sort only moves idle paths: busy-path membership tests compare like with like (shared with C03 R-3.8)", floor=4)
+    ctx.rule("R-5.5", "in the permanent code a length guard implies that the index it protects is in range (the idle block may consist of [0-] alone)", floor=1)
     ctx.rule("R-5.1", "path-number counter discipline (never reused, also across restarts)", floor=5)
     ctx.attempt(r51, ctx)
     ctx.attempt(r53, ctx)
     ctx.attempt(r54, ctx)
+    ctx.attempt(r55, ctx)
     from .shared import commit_is_final
     ctx.attempt(commit_is_final, ctx, "R-5.2")
 
 
 VARIANTS = [
+    B("c05-only-minus-guard-off-by-one", REPEX, "        if len(sorted_non_locked_T) <= offset:\n            equal_pos = True", "        if len(sorted_non_locked_T) < offset:\n            equal_pos = True", "R-5.5", control=True, why="seeded C05_c"),
+    K("c05-keep-only-minus-guard-flipped", REPEX, "        if len(sorted_non_locked_T) <= offset:\n            equal_pos = True", "        if offset >= len(sorted_non_locked_T):\n            equal_pos = True"),
     B("c05-increment-under-delete-old", REPEX, "                traj_num += 1\n                if (\n                    self.config[\"output\"].get(\"delete_old\", False)\n                    and pn_old > self.n - 2\n                ):\n", "                if (\n                    self.config[\"output\"].get(\"delete_old\", False)\n                    and pn_old > self.n - 2\n                ):\n                    traj_num += 1\n", "R-5.1", control=True),
     B("c05-storeback-after-commit", REPEX, '        self.config["current"]["traj_num"] = traj_num\n        self.cworker = md_items["pin"]', '        self.cworker = md_items["pin"]', "R-5.1",
       also=[(REPEX, "        # save for possible restart\n        self.write_toml()\n\n        return md_items", '        # save for possible restart\n        self.write_toml()\n        self.config["current"]["traj_num"] = traj_num\n\n        return md_items')]),
